@@ -1,0 +1,85 @@
+"""
+Verification hooks (off unless the environment variable ACCELFORGE_VERIF=1 is set).
+
+Nothing in here changes behaviour when the guard is off: ``enabled()`` is a constant read
+once at import, and every call site is a single guarded statement.
+
+- ``emit(event)`` appends one JSON line to the file named by ACCELFORGE_VERIF_TRACE, with a
+  per-process sequence number.
+- ``schedule_active()`` / ``scheduled(jobs, unordered)`` let a test impose the order in
+  which the jobs given to ``accelforge.util.parallel.parallel`` are executed and the
+  order in which their results arrive, either from a seed
+  (ACCELFORGE_VERIF_SCHEDULE_SEED=<int>: a fresh pseudo-random permutation per call) or
+  from a file (ACCELFORGE_VERIF_SCHEDULE=<json file>: a list of priority vectors, one
+  per call, recycled). Jobs run in-process, one after the other.
+"""
+
+import json
+import os
+import random
+
+_ENABLED = os.environ.get("ACCELFORGE_VERIF", "0") == "1"
+_seq = 0
+_call = 0
+_schedule = None
+
+
+def enabled() -> bool:
+    return _ENABLED
+
+
+def emit(event: dict) -> None:
+    global _seq
+    if not _ENABLED:
+        return
+    path = os.environ.get("ACCELFORGE_VERIF_TRACE")
+    if not path:
+        return
+    _seq += 1
+    rec = {"pid": os.getpid(), "seq": _seq}
+    rec.update(event)
+    with open(path, "a") as f:
+        f.write(json.dumps(rec, default=str) + "\n")
+
+
+def schedule_active() -> bool:
+    return _ENABLED and (
+        "ACCELFORGE_VERIF_SCHEDULE_SEED" in os.environ
+        or "ACCELFORGE_VERIF_SCHEDULE" in os.environ
+    )
+
+
+def _orders(n: int) -> tuple[list[int], list[int]]:
+    """(execution order, arrival order) for the next call with n jobs."""
+    global _call, _schedule
+    _call += 1
+    path = os.environ.get("ACCELFORGE_VERIF_SCHEDULE")
+    if path:
+        if _schedule is None:
+            with open(path) as f:
+                _schedule = json.load(f)
+        entry = _schedule[(_call - 1) % len(_schedule)]
+        ex, ar = entry["exec"], entry["arrive"]
+        key = lambda p: (lambda i: (p[i % len(p)], i))
+        return sorted(range(n), key=key(ex)), sorted(range(n), key=key(ar))
+    rng = random.Random(int(os.environ["ACCELFORGE_VERIF_SCHEDULE_SEED"]) * 1000003 + _call)
+    ex = list(range(n))
+    ar = list(range(n))
+    rng.shuffle(ex)
+    rng.shuffle(ar)
+    return ex, ar
+
+
+def scheduled(jobs: list, unordered: bool):
+    """Run the (function, args, kwargs) jobs in the scheduled execution order and yield
+    their results in the scheduled arrival order (or in job order if not unordered)."""
+    n = len(jobs)
+    ex, ar = _orders(n)
+    emit({"event": "Call", "call": _call, "n": n, "exec": ex, "arrive": ar if unordered else list(range(n)),
+          "unordered": unordered})
+    results = {}
+    for i in ex:
+        f, a, kw = jobs[i]
+        results[i] = f(*a, **kw)
+    for i in ar if unordered else range(n):
+        yield results[i]
